@@ -242,6 +242,18 @@ def region_for(tx, ref, step, root_live):
         # position-less nodes (comprehension, withitem, match_case, arguments, keyword**): span of children, start widened to the introducing keyword by the separator rule
         return min(k[0] for k in kids), max(k[1] for k in kids), min(k[2] for k in kids), max(k[3] for k in kids)
 
+    # lines of the innermost enclosing statement (decorators included): an expression-level edit has no business outside them
+    if not is_stmt:
+        try:
+            for k in range(len(step['path']) - 1, -1, -1):
+                anc = edits.resolve(ref, step['path'][:k])
+                if isinstance(anc, (ast.stmt, ast.ExceptHandler, ast.match_case)):
+                    ea = ext(anc)
+                    if ea:
+                        step['_stmt_lines'] = (ea[2], ea[3])
+                    break
+        except Exception:
+            pass
     lst = getattr(parent, field) if idx is not None else None
     n = step.get('n', 1)
     if op in ('replace', 'put', 'assign', 'put_slice_one', 'remove', 'delitem', 'put_none', 'cut', 'get_cut', 'put_line_comment'):
@@ -421,6 +433,9 @@ def judge(ctx, tx, after, region, step, case):
         if bs[i] in ext_strings and t.type != tokenize.COMMENT:
             return 2      # same text occurs inside the element: which of two identical tokens "was" deleted is an alignment ambiguity
         if t.type == tokenize.COMMENT:
+            sl_ = step.get('_stmt_lines')
+            if sl_ and step['kind'] not in ('stmt', 'handler', 'case') and not (sl_[0] <= t.start[0] <= sl_[1]):
+                return 9      # outside the statement that contains the expression-level element: no trivia option of that element can select it
             if (t.start[0], key(t)) in sel:
                 return 1
             if p0 <= o < p1:
@@ -452,7 +467,12 @@ def judge(ctx, tx, after, region, step, case):
                 continue
             t = btoks[i]
             own_line_comment = t.type == tokenize.COMMENT and not tx.lines[t.start[0] - 1][:t.start[1]].strip()
-            if own_line_comment and step['kind'] not in ('stmt', 'handler', 'case') and t.start[0] > (fl_ll[1] if fl_ll else 0):
+            sl = step.get('_stmt_lines')
+            if t.type == tokenize.COMMENT and step['kind'] not in ('stmt', 'handler', 'case') and sl and not (sl[0] <= t.start[0] <= sl[1]):
+                ctx.violation(f'comment-outside-enclosing-statement-lost:{step["op"]}:{step["field"]}',
+                              f'{step["op"]} on {step["ptype"]}.{step["field"]} ({step["ttype"]}) opts={step["opts"]}: comment {t.string!r} on line {t.start[0]} lies outside the statement (lines {sl[0]}-{sl[1]}) that contains the edited expression-level element, yet it is gone; '
+                              f'before={short(before, 300)!r} after={short(after, 300)!r}', case)
+            elif own_line_comment and step['kind'] not in ('stmt', 'handler', 'case') and t.start[0] > (fl_ll[1] if fl_ll else 0):
                 ctx.violation('exprlike-edit-deletes-own-line-comment-above-next-element',
                               f'{step["op"]} on {step["ptype"]}.{step["field"]} opts={step["opts"]}: the own-line comment {t.string!r} (line {t.start[0]}) above the element FOLLOWING the edited position was deleted; '
                               f'before={short(before, 300)!r} after={short(after, 300)!r}', case)
@@ -511,6 +531,104 @@ OPS = ['replace', 'put', 'assign', 'put_slice_one', 'remove', 'delitem', 'put_no
        'view_insert', 'view_append', 'extend', 'prextend']
 
 
+def one_step(ctx, FST, root, step, tv, rnd, first=None, workload='seq'):
+    """Apply one generated step with the trivia option `tv` and judge it. Returns False when the sequence must stop."""
+    from .. import edits
+    from ..base import refparse, insync
+    before = root.src
+    ref, _ = refparse(before)
+    if ref is None:
+        return False
+    step['opts'] = {'norm': True}
+    if tv is not None:
+        step['opts']['trivia'] = tv
+    if rnd.random() < 0.3:
+        step['opts']['pep8space'] = rnd.choice([False, 1])
+    if rnd.random() < 0.15:
+        step['opts']['elif_'] = False
+    if rnd.random() < 0.15:
+        step['opts']['docstr'] = rnd.choice([False, 'strict'])
+    tx = Text(before)
+    if tx.toks is None:
+        return False
+    try:
+        region = region_for(tx, ref, step, root)
+        if region is not None and '_extent' not in step:
+            step['_extent'] = (region[0], region[0])
+    except Exception as e:
+        ctx.count('region_not_computable:' + type(e).__name__)
+        region = None
+    try:
+        edits.apply_step(root, step, FST)
+    except Exception:
+        ctx.count('step_raised')
+        return root.src == before
+    if region is None:
+        ctx.count('region_not_computable')
+        return True
+    if root.src == before:
+        ctx.count('no_text_change')
+        return True
+    case = {'workload': workload, 'src': before, 'steps': [{k: v for k, v in step.items() if not k.startswith('_')}]}
+    if first is not None and len(first) < 2:
+        first.append({k: step[k] for k in ('op', 'ptype', 'field', 'ttype', 'opts')})
+    if not judge(ctx, tx, root.src, region, step, case):
+        return False
+    ok, _ = insync(root)
+    return ok is not False
+
+
+BOUNDARY_PROGRAMS = [
+    'import functools\n# cached because the lookup is slow, see ticket 1234\n@functools.cache\n@traced\ndef lookup(key):\n    return table[key]\n',
+    'class K:\n    x = 1\n    # public API, do not rename\n    @staticmethod\n    # about make\n    @other\n    def make():\n        return K()\n',
+    'TEMPLATES = [\n    """\n    # generated file, do not edit""",\n    second,\n    third,\n]\n',
+    'call(first,  # about first\n     """text\n# still text""", third,  # about third\n     fourth)\n',
+    'def first():\n    return 1\n# explains second(), not first()\ndef second():\n    return 2\n\n# explains third\n\ndef third(): pass\n',
+    'a = 1  # trailing a\nb = 2  # trailing b\n# own line before c\nc = 3\n\n# after blank\nd = 4\n',
+    'if x:  # on if\n    a  # on a\n    # before b\n    b\nelif y:  # on elif\n    c\nelse:  # on else\n    # before d\n    d  # on d\n# after if\ne\n',
+    'x = [\n    a,  # ca\n    # before b\n    b,\n    c,  # cc\n]  # after list\ny = (p,  # cp\n     q)  # cq\n',
+    'r = (a or  # ca\n     b or  # cb\n     # before c\n     c)\ns = a < b < c  # cmp\n',
+    'try:  # t\n    a\nexcept E:  # e\n    b  # cb\n# before else\nelse:  # el\n    c\nfinally:  # f\n    d  # cd\n',
+    'with a as b, c as d:  # w\n    x; y  # xy\n    z  # cz\nimport m, n  # imp\nfrom p import (q,  # cq\n               r)  # cr\n',
+    'd = {\n    k1: v1,  # c1\n    # before k2\n    **rest,\n    k2: v2,\n}\ndel a, b  # del\nglobal g1, g2  # glb\n',
+    'match v:  # m\n    case 1:  # c1\n        a\n    # before case 2\n    case [x, y]:  # c2\n        b  # cb\n',
+    'def f(a,  # ca\n      b=1,  # cb\n      *c,  # cc\n      d):  # cd\n    """doc"""  # after doc\n    # before pass\n    pass\n',
+    'for i in j:  # fr\n    k  # ck\nelse:  # fe\n    l\nwhile m:  # wh\n    n; o  # no\n',
+    'x = f(a)(b,  # cb\n         c)  # cc\ny = z[i,  # ci\n      j]  # cj\nclass C(B1,  # b1\n        B2):  # b2\n    pass\n',
+    'v = [i  # ci\n     for i in j  # cj\n     if k  # ck\n     if l]  # cl\n@d1  # cd1\n@d2  # cd2\nclass K: pass\n',
+    'a = b = c  # abc\nx: int = 1  # ann\ny += 2; z -= 3  # aug\nassert p, q  # asr\nraise E from c  # rs\n',
+]
+TABLE_OPS = ['remove', 'cut', 'replace', 'delitem', 'put_none', 'put_slice_none', 'view_remove', 'get_slice_cut', 'put_slice_one', 'insert', 'append', 'prepend']
+TABLE_TRIVIA = [None, False, 'all', 'block', (), ('all', 'line'), ('block', 'all')]
+
+
+def run_table(ctx, FST):
+    """Deterministic part: every target of every BOUNDARY program x every table operation x every trivia option (complete in both tiers)."""
+    import random
+    from .. import edits
+    i = 0
+    for pi, src in enumerate(BOUNDARY_PROGRAMS):
+        try:
+            n = len(edits.candidates(FST(src, 'exec').a))
+        except Exception:
+            continue
+        for ci in range(n):
+            for op in TABLE_OPS:
+                for ti, tv in enumerate(TABLE_TRIVIA):
+                    i += 1
+                    if not ctx.mine(i):
+                        continue
+                    if ctx.out_of_time():
+                        return
+                    rnd = random.Random(i)
+                    root = FST(src, 'exec')
+                    step = edits.gen_step(rnd, root, {}, None, norm=True, ops=OPS, cand=ci, op=op)
+                    if step is None:
+                        continue
+                    ctx.count('table_steps')
+                    one_step(ctx, FST, root, step, tv, rnd, None, 'table')
+
+
 def run_sequence(ctx, FST, rnd):
     from .. import corpus, edits
     from ..base import refparse, short, insync
@@ -533,53 +651,11 @@ def run_sequence(ctx, FST, rnd):
     for i in range(10):
         if ctx.out_of_time():
             return
-        before = root.src
-        ref, _ = refparse(before)
-        if ref is None:
-            return
         step = edits.gen_step(rnd, root, donors, None, norm=True, ops=OPS)
         if step is None:
             return
         tv = rnd.choice(TRIVIA_CHOICES)
-        step['opts'] = {'norm': True}
-        if tv is not None:
-            step['opts']['trivia'] = tv
-        if rnd.random() < 0.3:
-            step['opts']['pep8space'] = rnd.choice([False, 1])
-        if rnd.random() < 0.15:
-            step['opts']['elif_'] = False
-        if rnd.random() < 0.15:
-            step['opts']['docstr'] = rnd.choice([False, 'strict'])
-        tx = Text(before)
-        if tx.toks is None:
-            return
-        try:
-            region = region_for(tx, ref, step, root)
-            if region is not None and '_extent' not in step:
-                step['_extent'] = (region[0], region[0]) if step['op'] in ('insert', 'view_insert', 'append', 'view_append', 'extend', 'prepend', 'prextend') or True else region
-        except Exception as e:
-            ctx.count('region_not_computable:' + type(e).__name__)
-            region = None
-        try:
-            edits.apply_step(root, step, FST)
-        except Exception:
-            ctx.count('step_raised')
-            if root.src != before:
-                return
-            continue
-        if region is None:
-            ctx.count('region_not_computable')
-            continue
-        if root.src == before:
-            ctx.count('no_text_change')
-            continue
-        case = {'workload': 'seq', 'src': before, 'steps': [{k: v for k, v in step.items() if not k.startswith('_')}]}
-        if len(first) < 2:
-            first.append({k: step[k] for k in ('op', 'ptype', 'field', 'ttype', 'opts')})
-        if not judge(ctx, tx, root.src, region, step, case):
-            return
-        ok, _ = insync(root)
-        if ok is False:
+        if not one_step(ctx, FST, root, step, tv, rnd, first):
             return
     if first and len(ctx.samples) < 5:
         ctx.sample({'file': fn, 'layout': applied, 'src': short(src, 160), 'steps': first})
@@ -587,6 +663,7 @@ def run_sequence(ctx, FST, rnd):
 
 def run(ctx):
     from fst import FST
+    run_table(ctx, FST)
     while not ctx.out_of_time():
         run_sequence(ctx, FST, ctx.rnd)
 
